@@ -104,17 +104,21 @@ fn process(rx: mpsc::Receiver<(u32, Vec<u8>)>) {
                 inject(kind, &mut canaries);
             }
         }
-        let started = std::time::Instant::now();
         let outcome = match ENTRIES.get(id as usize) {
             Some(e) => call(e, &bytes),
             None => "err:outer-unknown-entry".to_string(),
         };
         // thread echo: every other delivery is repeated on a brand-new thread of this process (no
         // thread-local history at all); the complete outcome must be the one this long-lived
-        // thread produced. (The elapsed time only decides whether the echo is skipped for slow
-        // calls, never what is reported for a call that is echoed.)
+        // thread produced. Whether a delivery is echoed is a function of its position and content
+        // only (glob inputs whose pattern x value product is large are legitimately slow and are
+        // not run twice), never of a clock.
         let mut echo: Option<String> = None;
-        if !bare && n % 2 == 0 && !outcome.starts_with("panic:") && started.elapsed() < Duration::from_millis(1500) {
+        let heavy_glob = ENTRIES.get(id as usize).is_some_and(|e| e.traits & crate::mutate::T_GLOB != 0) && {
+            let cut = bytes.iter().position(|b| *b == b'\n').unwrap_or(bytes.len());
+            cut.saturating_mul(bytes.len() - cut) > 1_000_000
+        };
+        if !bare && n % 2 == 0 && !outcome.starts_with("panic:") && !heavy_glob {
             if let Some(e) = ENTRIES.get(id as usize) {
                 let b2 = bytes.clone();
                 let again = std::thread::Builder::new()
